@@ -44,11 +44,28 @@ class SymExec:
         self.max_states = max_states
 
     # ---- expressions
+    def _const_names(self, e, st):
+        """e with the locals that hold an integer constant on this path written as that constant (an index picked into a local: `x[i]` with i = -1)"""
+        import copy
+        consts = {k: int(v.const) for k, v in st.env.items() if isinstance(v, Lin) and not v.coef and float(v.const).is_integer()}
+        if not consts or not any(isinstance(x, ast.Name) and x.id in consts for x in ast.walk(e)):
+            return e
+
+        class T(ast.NodeTransformer):
+            def visit_Name(self, n):
+                if n.id in consts and isinstance(n.ctx, ast.Load):
+                    return ast.copy_location(ast.Constant(value=consts[n.id]), n)
+                return n
+        return ast.fix_missing_locations(T().visit(copy.deepcopy(e)))
+
     def atom_fn(self, st):
         def f(e):
             t = src(e)
             if t in self.atoms:
                 return self.atoms[t]
+            t2 = src(self._const_names(e, st))
+            if t2 in self.atoms:
+                return self.atoms[t2]
             if isinstance(e, ast.Name) and e.id in st.env and isinstance(st.env[e.id], bool):
                 return st.env[e.id]
             return UNK
@@ -58,6 +75,7 @@ class SymExec:
         def symname(n):
             return self.symbols.get(src(n))
         env = {k: v for k, v in st.env.items() if isinstance(v, Lin)}
+        e = self._const_names(e, st)
 
         def rec(n):
             if isinstance(n, ast.IfExp):
@@ -74,6 +92,17 @@ class SymExec:
                 if l is None or r is None:
                     return None
                 return l + r if isinstance(n.op, ast.Add) else l - r
+            if isinstance(n, ast.BinOp) and isinstance(n.op, ast.Mult):
+                l, r = rec(n.left), rec(n.right)
+                if l is not None and r is not None:
+                    if not l.coef:
+                        return r.scale(l.const)
+                    if not r.coef:
+                        return l.scale(r.const)
+                return None
+            if isinstance(n, ast.UnaryOp) and isinstance(n.op, ast.USub):
+                v_ = rec(n.operand)
+                return v_.scale(-1) if v_ is not None else None
             if isinstance(n, ast.Name) and n.id in st.env and not isinstance(st.env[n.id], Lin):
                 return None
             return linform(n, env, symname)
